@@ -93,6 +93,7 @@ package wallet
 // stores a counter past everything it had signed before it returns successfully.
 //@ func (*Wallet).swapToSend
 //@   tags C19 C18
+//@   records snd.err snd.calls
 // C18: the fee added on top of the amount is the mint's input fee for exactly the proofs handed out
 // (len(split) of them: the amount outputs plus the outputs that carry the fee itself) ...
 //@   calls slices.Sort asserts @sendfee [C18] includeFees ==> feesToReceive == (len(split) * activeSatKeyset.InputFeePpk + 999) / 1000
@@ -176,3 +177,11 @@ package wallet
 // (the fee of the concatenation is at most the sum of the two: ceilings are subadditive)
 //@   calls builtin.append asserts @coversparts [C18] psum(selectedProofs) + psum(proofsForRemainingAmount) >= amount + (includeFees ? wfee(selectedProofs, mint) + wfee(proofsForRemainingAmount, mint) : 0)
 //@   ensures @early [C18] r1 == nil && includeFees ==> psum(r0) >= amount
+
+// Offline path (no swap needed): the proofs returned are worth EXACTLY the amount
+// plus, when requested, the input fee of exactly those proofs.
+//@ func (*Wallet).getProofsForAmount
+//@   tags C18
+//@   requires @bound [C18] w != nil && w.db != nil && w.mints != nil && mint != nil && amount <= 1152921504606846976 && winv()
+//@   ensures @exact [C18] r1 == nil && snd.calls == old(snd.calls) ==> psum(r0) % 18446744073709551616 == amount + (includeFees ? wfee(r0, mint) : 0)
+//@   ensures @once [C18] snd.calls <= old(snd.calls) + 1
